@@ -248,7 +248,9 @@ func (fr *frame) choose(t *sym.Term, what string) uint64 {
 		return t.Val
 	}
 	if fr.guard != nil {
-		panic(unsupported("concretisation inside if-converted region"))
+		// cannot case-split while both arms of a region are being evaluated: give the region
+		// up and branch normally at its If
+		panic(regionAbort{"concretisation inside if-converted region"})
 	}
 	e := fr.i.ex
 	c := fr.i.ctx
